@@ -527,6 +527,27 @@ void World::doNew() {
     ++version;
 }
 
+// The object being constructed by a load on this thread, for the budget probes: the data reader of ezc3d runs inside the
+// constructor, after the header and the parameter section have been stored in the (still incomplete) object.
+namespace {
+thread_local const ezc3d::c3d *t_loading = nullptr;
+struct C3dPeek : ezc3d::c3d { // never instantiated: a derived class may name the protected members of its base
+    static bool params_stored(const ezc3d::c3d &c) { return static_cast<bool>(c.*(&C3dPeek::_parameters)); }
+};
+int loading_phase() { return t_loading && C3dPeek::params_stored(*t_loading) ? 1 : 0; }
+ClaimedCounts loading_claims() {
+    ClaimedCounts cc;
+    if (!t_loading) return cc;
+    const ezc3d::Header &h = t_loading->header();
+    unsigned __int128 per = static_cast<unsigned __int128>(4) * h.nb3dPoints() + static_cast<unsigned __int128>(h.nbAnalogByFrame()) * h.nbAnalogs();
+    unsigned __int128 v = per * h.nbFrames();
+    cc.values = v > (static_cast<unsigned __int128>(1) << 62) ? (1ull << 62) : static_cast<uint64_t>(v);
+    unsigned __int128 o = (static_cast<unsigned __int128>(2) + h.nb3dPoints() + static_cast<unsigned __int128>(h.nbAnalogByFrame()) * (1 + static_cast<unsigned __int128>(h.nbAnalogs()))) * h.nbFrames();
+    cc.objects = o > (static_cast<unsigned __int128>(1) << 62) ? (1ull << 62) : static_cast<uint64_t>(o);
+    return cc;
+}
+} // namespace
+
 bool World::loadFrom(const std::string &path, const FaultSpec &f, StepRecord &rec, std::string *what) {
     obj.reset();
     std::vector<uint8_t> bytes;
@@ -534,16 +555,21 @@ bool World::loadFrom(const std::string &path, const FaultSpec &f, StepRecord &re
     uint64_t S = bytes.size();
     seam_reset_counters();
     disk_begin_op(f);
+    budget_set_probes(loading_phase, loading_claims);
+    void *mem = ::operator new(sizeof(ezc3d::c3d)); // storage first, so that the probes can look at the object while it loads
     budget_arm(S); // every load runs under the read/heap budgets; only C16 turns a trip into its own violation
     bool ok = false;
+    t_loading = static_cast<const ezc3d::c3d *>(mem);
     try {
-        obj.reset(new ezc3d::c3d(path));
+        obj.reset(new (mem) ezc3d::c3d(path));
         ok = true;
     } catch (...) {
         rec.threw = true;
         rec.exc = classify_current_exception(what);
     }
+    t_loading = nullptr;
     BudgetState bs = budget_disarm();
+    if (!ok) ::operator delete(mem);
     OpStats os = disk_end_op();
     res.st.io_calls += os.read_calls + os.seeks + os.opens;
     res.st.read_seam_calls += seam_read_calls();
